@@ -24,6 +24,7 @@ package cachepolicy
 //@   modifies calls(ctx.Value)
 
 //@ func (*executor).PreExecute
+//@   beforecall e.onMiss: assert [C14.user_callback_gets_copy] userCopy(callarg_0.ExecutionAttempt)
 //@   requires e != nil && e.cachePolicy != nil && e.config != nil && e.cache != nil && exec != nil
 //@   requires typeis(exec, *failsafe.execution)
 //@   ext ctx := reti(exec.Context, 1)
@@ -40,9 +41,10 @@ package cachepolicy
 //@   ensures [C11.pre.never_writes] ncalls(e.cache.Set) == 0
 //@   ensures [C11.pre.context_once] ncalls(exec.Context) == 1 && ncalls(ctx.Value) == 1
 //@   havoc
-//@   modifies calls(exec.Context), calls(ctx.Value), calls(e.cache.Get), calls(e.onHit), calls(e.onMiss)
+//@   modifies calls(exec.Context), calls(exec.CopyWithResult), calls(ctx.Value), calls(e.cache.Get), calls(e.onHit), calls(e.onMiss)
 
 //@ func (*executor).PostExecute
+//@   beforecall e.onCache: assert [C14.user_callback_gets_copy] userCopy(callarg_0.ExecutionAttempt)
 //@   requires e != nil && e.cachePolicy != nil && e.config != nil && e.cache != nil && exec != nil && er != nil
 //@   requires forall j int :: 0 <= j && j < len(e.cacheConditions) ==> e.cacheConditions[j] != nil
 //@   ext ctx := reti(exec.Context, 1)
